@@ -160,7 +160,7 @@ def check(ctx):
             if isinstance(n, ast.BinOp) and isinstance(n.op, ast.Div):
                 v = it.value_of(n)
                 l, rr = it.value_of(n.left), it.value_of(n.right)
-                if l is not None and l.counts_of is not None and div is None:
+                if l is not None and (l.counts_of is not None or l.bincount_of is not None) and div is None:
                     div = (n, l, rr)
     if div is None:
         ctx.ob('R3', fo, 'counts / frames', None, 'normalisation of the state counts not recognised')
@@ -176,7 +176,7 @@ def check(ctx):
         ctx.ob('R3', fo, n, True if ok else (False if m is not None else None),
                'state counts divided by the number of frames' if ok else
                f'counts are divided by {m.text() if hasattr(m, "text") else m}, not by the number of frames')
-        src = l.counts_of
+        src = l.counts_of if l.counts_of is not None else l.bincount_of
         oks = src is not None and src.idx is not None and src.idx[0] == 'SITE'
         ctx.ob('R3', fo, 'np.unique(states, return_counts=True)', True if oks else None, 'counts of the site states')
     fa = ctx.fn(f'{TR}.atom_locations')
